@@ -172,5 +172,13 @@ pub fn run(ctx: &mut Ctx) {
             let docs = batch(&mut rng, 48);
             check_batch(ctx, &docs);
         }
+        if i % 101 == 7 && !ctx.miri {
+            // wide documents, as JSONB and as text
+            let w = gen::wide_doc(&mut rng);
+            let w2 = gen::derive(&w, &mut rng);
+            check_pair(ctx, &w, &w2);
+            check_pair(ctx, &w2, &w);
+            check_pair(ctx, &w, &w);
+        }
     }
 }
